@@ -10,7 +10,7 @@ package internal
 //@   ensures  total == 0 ==> result == 0
 //@   ensures  total > 0 && current >= total ==> result == real(width)
 //@   ensures  upper: total > 0 && current < total ==> result >= 0 && result <= real(width) + real(width)/pow2(50)
-//@   ensures  nearest@C08,C20: total > 0 && current < total ==>
+//@   ensures  nearest@~C08,C20: total > 0 && current < total ==>
 //@              abs(result - real(width)*real(current)/real(total)) <= real(width)/pow2(50)
 
 //@ func PercentageRound
@@ -22,7 +22,7 @@ package internal
 //@   ensures  range: result <= real(width)
 //@   ensures  zero: current <= 0 || total <= 0 ==> result == 0
 //@   ensures  full: 0 < total && total <= current ==> result == real(width)
-//@   ensures  nearest@C08,C20: 0 <= current && current < total ==>
+//@   ensures  nearest@~C08,C20: 0 <= current && current < total ==>
 //@              abs(result - real(width)*real(current)/real(total)) <= 0.5 + real(width)/pow2(50)
 
 //@ func CheckRequestedWidth
